@@ -181,6 +181,7 @@ def check(ctx):
                           {"case": c, "result": r1b}, key="tcp:" + ("garbage" if r1b.get("garbage") else "order-or-gap"))
             break
     two_producers(ctx, drv, d)
+    moved_sink(ctx, d)
     kafka(ctx, thorough)
     nsq(ctx, thorough)
     nats(ctx, thorough)
@@ -203,6 +204,43 @@ CONSTANTS N = 5
 INVARIANTS InOrderOnce HandedExactlyOnce
 CHECK_DEADLOCK FALSE
 """
+
+
+def moved_sink(ctx, d):
+    """the sink is configured by name; it dies and comes back under that name at another address: the producer reconnects to
+    the sink as configured, delivery resumes, and what the two incarnations received is an in-order, duplicate-free,
+    unmodified subsequence of what was handed over"""
+    drv = ctx.go_build_test("producer", ["producer/rawsocket_verif_test.go", "producer/moved_verif_test.go"])
+    out = os.path.join(d, "moved.json")
+    rc, log, to = ctx.go_run(drv, "TestVerifProducerMoved", env={"VERIF_OUT": out, "VERIF_MOVED": 1}, timeout=180)
+    ctx.count(["sink-moved-under-its-name"])
+    if rc != 0 or to or not os.path.exists(out):
+        raise vlib.Infra("moved-sink driver failed:\n" + log[-1500:])
+    r = json.load(open(out))
+    if r.get("infra"):
+        raise vlib.Infra("moved-sink driver: " + r["infra"])
+    if r.get("hung"):
+        ctx.violation("raw-socket producer, sink configured by name: after the sink came back under its name at another address the producer "
+                      "stopped taking messages", {"result": r}, key="moved:hung")
+        return
+    handed, got = r["handed"], (r.get("at_a") or []) + (r.get("at_b") or [])
+    pos, ok = -1, True
+    for line in got:
+        if line not in handed or handed.index(line) <= pos:
+            ok = False
+            break
+        pos = handed.index(line)
+    tail = handed[-3:]
+    if not ok:
+        ctx.violation("raw-socket producer, sink configured by name and moved: what the two incarnations of the sink received is not an in-order, "
+                      "duplicate-free, unmodified subsequence of what was handed over: %s" % got[:30], {"result": r}, key="moved:order")
+    elif any(m not in (r.get("at_b") or []) for m in tail):
+        ctx.violation("raw-socket producer, sink configured by name: the sink died and came back under the same name at another address (reachable "
+                      "at its configured URL); of the %d messages handed over afterwards %d arrived there - delivery never resumed (error counter %s)"
+                      % (len(handed) - 4, len(r.get("at_b") or []), r.get("errors")), {"result": {k: r[k] for k in ("at_a", "at_b", "errors")}}, key="moved:never-resumed")
+    else:
+        ctx.traces_validated += 1
+    ctx.extra["moved_sink"] = {"handed": len(handed), "at_first_address": len(r.get("at_a") or []), "at_second_address": len(r.get("at_b") or [])}
 
 
 def two_producers(ctx, drv, d):
